@@ -474,6 +474,50 @@ class Gen:
                 comment = ("note %d" % rng.randrange(100)).encode().hex()
             self.add("emit %d %x %s %s %s" % (iid, opts, extra, comment, " ".join(ops)), True)
 
+    EXPLAINED = (
+        "vblendpd blendpd vblendps blendps vcmppd vcmpps vcmpsd vcmpss cmppd cmpps cmpsd cmpss vdbpsadbw vdppd vdpps dppd dpps vmpsadbw "
+        "mpsadbw vpblendw pblendw vpblendd vpclmulqdq pclmulqdq vroundpd vroundps vroundsd vroundss roundpd roundps roundsd roundss vshufpd "
+        "shufpd vshufps shufps vcvtps2ph vperm2f128 vperm2i128 vpermilpd vpermilps vpshufd pshufd vpshufhw vpshuflw pshufhw pshuflw pshufw "
+        "vfixupimmpd vfixupimmps vfixupimmsd vfixupimmss vfpclasspd vfpclassps vfpclasssd vfpclassss vgetmantpd vgetmantps vgetmantsd "
+        "vgetmantss vpcmpb vpcmpd vpcmpq vpcmpw vpcmpub vpcmpud vpcmpuq vpcmpuw vpcomb vpcomd vpcomq vpcomw vpcomub vpcomud vpcomuq vpcomuw "
+        "vpermq vpermpd vpternlogd vpternlogq vrangepd vrangeps vrangesd vrangess vreducepd vreduceps vreducesd vreducess vrndscalepd "
+        "vrndscaleps vrndscalesd vrndscaless vshuff32x4 vshuff64x2 vshufi32x4 vshufi64x2 "
+        # neighbours that must NOT get an annotation
+        "vpalignr palignr vpermil2pd vextractf128 vinsertf128 vpsrldq shl add vpshufb insertps").split()
+
+    def explain_block(self, ids, quick):
+        """every instruction FormatterInternal_explain_const knows (and some it does not) with register operands of the three vector
+        widths / memory only, over immediates that reach every field value; formatted (no encoder involved), then a few emitted"""
+        rng = self.rng
+        imms = sorted(set([0, 1, 2, 3, 4, 5, 7, 8, 9, 0xF, 0x10, 0x1B, 0x40, 0x55, 0x80, 0xAA, 0xB1, 0xE4, 0xFF, 0x100, 0x1FF, -1, -128] +
+                          [rng.randrange(256) for _ in range(6 if quick else 60)]))
+        for name in self.EXPLAINED:
+            if name not in ids:
+                continue
+            for shape in ("r.11.1 r.11.2", "r.12.3 r.12.4 r.12.5", "r.13.6 r.13.7 m.64.0.0.6/3.-.0.0.0.0", "m.16.0.0.6/3.-.0.0.0.0",
+                          "r.16.1 r.13.2 r.11.3", "r.11.1 r.12.2"):
+                for v in (imms if shape == "r.13.6 r.13.7 m.64.0.0.6/3.-.0.0.0.0" or not quick else rng.sample(imms, 5)):
+                    self.add("inst %d 0 - %s i.%d" % (ids[name], shape, v), True)
+            # two immediates on one line, immediate first
+            self.add("inst %d 0 - i.%d r.12.1 i.%d" % (ids[name], rng.randrange(256), rng.randrange(256)), True)
+
+    def explain_emit_block(self, ids):
+        rng = self.rng
+        for name, shapes in (("shufps", ["r.11.1 r.11.2"]), ("vshufps", ["r.11.1 r.11.2 r.11.3", "r.12.1 r.12.2 r.12.3", "r.13.1 r.13.2 r.13.3"]),
+                             ("vshufpd", ["r.12.1 r.12.2 r.12.3", "r.13.1 r.13.2 r.13.3"]), ("pshufd", ["r.11.1 r.11.2"]),
+                             ("vcmpps", ["r.11.1 r.11.2 r.11.3", "r.16.1 r.13.2 r.13.3"]), ("cmppd", ["r.11.1 r.11.2"]),
+                             ("vpternlogd", ["r.13.1 r.13.2 r.13.3"]), ("vblendpd", ["r.12.1 r.12.2 r.12.3"]),
+                             ("roundps", ["r.11.1 r.11.2"]), ("vperm2f128", ["r.12.1 r.12.2 r.12.3"]), ("vpermq", ["r.12.1 r.12.2", "r.13.1 r.13.2"]),
+                             ("vshuff32x4", ["r.12.1 r.12.2 r.12.3", "r.13.1 r.13.2 r.13.3"]), ("pclmulqdq", ["r.11.1 r.11.2"]),
+                             ("vrndscaleps", ["r.13.1 r.13.2"]), ("vfpclassps", ["r.16.1 r.13.2"]), ("vgetmantpd", ["r.13.1 r.13.2"]),
+                             ("mpsadbw", ["r.11.1 r.11.2"]), ("vpcmpud", ["r.16.1 r.13.2 r.13.3"]), ("vrangeps", ["r.13.1 r.13.2 r.13.3"]),
+                             ("vfixupimmps", ["r.13.1 r.13.2 r.13.3"]), ("palignr", ["r.11.1 r.11.2"])):
+            if name not in ids:
+                continue
+            for sh in shapes:
+                for v in (0, 0x1B, 0xE4, 0xFF, rng.randrange(256)):
+                    self.add("emit %d 0 - - %s i.%d" % (ids[name], sh, v), True)
+
     def target_block(self, names, ids):
         """deterministic cases every run must contain (classes a careless change is most likely to break unnoticed):
         (a) an unbound-label memory operand TOGETHER with an immediate under kMachineCode (dots vs immediate bytes of the column),
@@ -642,6 +686,11 @@ def gen_ops(rng, tier):
             for f in (0x0, 0x60, 0x500):
                 g.set_flags(f)
                 g.target_block(names, ids)
+        if not comp and arch != "a64":
+            for f in (0x10, 0x30, 0x18):
+                g.set_flags(f)
+                g.explain_block(ids, quick)
+                g.explain_emit_block(ids)
         if not comp:
             first = True
             for f in ((0x1, 0x0, 0x61, 0x9, 0x11, 0x79) if quick else [x for x in all_flags if x & 0x500 == 0]):
@@ -750,6 +799,41 @@ def monitor_line(op, ans, pos=0):
         text, hexb = split_emit_answer(ans)
         return "mon_emit %s %s %s %s %s %s =%s" % (w[1], w[2], w[3], w[4], hexb or "-", " ".join(w[5:]), text)
     return None
+
+
+def explain_monitor_line(op, ans, arch, flags):
+    """the annotation glued to the only immediate of an x86 line says true things about it (Spec/FormatExplain.lean)"""
+    if arch.startswith("a64") or not flags & 0x10:
+        return None
+    w = op.split()
+    if w[0] == "inst" and ans.startswith("="):
+        toks, text = w[4:], ans
+    elif w[0] == "emit" and ans.startswith("T "):
+        toks, text = w[5:], "=" + (split_emit_answer(ans)[0] or "").split(" ; ")[0].split("; ")[0]
+    else:
+        return None
+    imms = [t for t in toks if t.startswith("i.")]
+    if len(imms) != 1 or "-" in toks or imms[0].count(".") != 1:
+        return None
+    vec = 16
+    for t in toks:
+        if t.startswith("r."):
+            vec = max(vec, {12: 32, 13: 64}.get(int(t.split(".")[1]), 16))
+    return "mon_expl %d %d %d %s" % (int(w[1]) & 0xFFFF, vec, int(imms[0][2:]) & 0xFF, text)
+
+
+_X86_NAMES = []
+
+
+def explain_family(op):
+    if not _X86_NAMES:
+        _X86_NAMES.extend(header_ids("x64")[0])
+    iid = int(op.split()[1]) & 0xFFFF
+    name = _X86_NAMES[iid] if iid < len(_X86_NAMES) else "?"
+    for k, fam in (("fpclass", "vfpclass"), ("fixupimm", "vfixupimm"), ("mpsadbw", "mpsadbw"), ("rndscale", "vrndscale-vreduce"), ("vreduce", "vrndscale-vreduce")):
+        if k in name:
+            return fam
+    return name
 
 
 def op_class(op, archs, i):
@@ -900,16 +984,17 @@ def run(res):
             continue
         if o.startswith("bind "):
             continue        # may legitimately fail (a short jump bound too far away); the model keeps no offsets
-        r2 = canon_impl(r, fl[i] & 0x10)
+        # the kExplainImms annotations are modelled for `inst` and `emit` (compared in full); node texts: still removed before comparing
+        r2 = r if o.startswith(("inst ", "emit ")) else canon_impl(r, fl[i] & 0x10)
+        if o.startswith(("inst ", "emit ")) and canon_impl(r, fl[i] & 0x10) != r:
+            skipped_annot += 1          # now: number of compared lines that carry an annotation
         if o.startswith("emit "):
-            if r2 != r:
-                skipped_annot += 1      # the annotation also moved the padding of the column: line judged by the reader only
-                continue
             r2 = "T " + (split_emit_answer(r2)[0] or "")
         if r2 != m:
             diffs.append(i)
     # monitor: the reader judges the implementation's text of every well-formed query
     mon_ops, idx = [], []
+    n_expl = 0
     pending_pos = 0
     for i, (o, r) in enumerate(zip(ops, impl)):
         if o.startswith("pos "):
@@ -924,6 +1009,10 @@ def run(res):
             ml = monitor_line(o, r, this_pos)
             if ml:
                 mon_ops.append(ml); idx.append(i)
+        ml = explain_monitor_line(o, r, archs[i], fl[i]) if wf[i] else None     # ill-formed operands may end the line early
+        if ml:
+            mon_ops.append(ml); idx.append(i)
+            n_expl += 1
     mon, rc3, err3 = vlib.run_model("C20", mon_ops)
     if len(mon) != len(mon_ops):
         res.violation("monitor protocol failure (%d answers for %d lines) %s" % (len(mon), len(mon_ops), err3[-300:]), {}, False, key="protocol")
@@ -953,6 +1042,7 @@ def run(res):
     res.coverage["exhaustive"] = False
     res.coverage["input_distribution"] = kinds
     res.coverage["monitored_answers"] = judged
+    res.coverage["imm_annotations_judged_against_the_immediate"] = n_expl
     res.coverage["emit_accepted_by_assembler"] = accepted
     implicit_mem = sum(1 for o, r in zip(ops, impl) if o.startswith("emit ") and r.startswith("T ") and
                        r.split(";")[0].split()[1:2] and r.split(";")[0].split()[1].split(".")[0] in ("monitor", "monitorx", "maskmovq", "maskmovdqu", "vmaskmovdqu")
@@ -994,7 +1084,7 @@ def run(res):
         "validation), the harness returns the bytes the CodeHolder section buffer grew by, the model's log line is computed from "
         "exactly those bytes and compared with the logger text, and monLogLine reads the column back and compares it byte for byte "
         "with them (dots only over a zero placeholder of an instruction that refers to a label)" % accepted)
-    res.coverage["emit_lines_with_imm_annotation_not_compared"] = skipped_annot
+    res.coverage["lines_with_imm_annotation_compared_in_full"] = skipped_annot
     res.coverage["traces_validated_against_impl"] = len(ops)
     ex = [i for i, o in enumerate(ops) if o.startswith(("op m.", "op am.", "inst ", "emit ")) and impl[i][:1] in ("=", "T")]
     res.add_samples([{"op": ops[i], "impl": impl[i], "model": model_full[i]} for i in (ex[0], ex[len(ex) // 3], ex[len(ex) // 2], ex[-1])] if ex else [])
@@ -1004,6 +1094,18 @@ def run(res):
         seen = set()
         for i, m in bad:
             key = "text:" + op_class(ops[i], archs, i)
+            if "immediate-annotation" in m:
+                key = "explain:" + explain_family(ops[i])
+                if key in seen:
+                    continue
+                seen.add(key)
+                n = sum(1 for j, m2 in bad if "immediate-annotation" in m2 and explain_family(ops[j]) == explain_family(ops[i]))
+                rp = [o for o in ops[:i + 1] if o.startswith("init ")][-1:] + state_prefix(ops, i)[1:] + [ops[i]]
+                res.violation("the kExplainImms annotation says something false about the immediate: %s -> %r ; reader says %s "
+                              "(%d inputs of this instruction family)" % (ops[i], impl[i], m, n),
+                              {"ops": rp, "impl": impl[i], "model": model_full[i], "monitor": m,
+                               "how": "feed the ops to .build/<tree>/asan/h_c20_* ; vdriver C20 judges `mon_expl` lines"}, True, key=key)
+                continue
             if ops[i].startswith("op am.") and re.match(r"op am\.[^.]+\.[^-][^.]*\.(\d+)\.0\.", ops[i]) and int(re.match(r"op am\.[^.]+\.[^.]+\.(\d+)\.", ops[i]).group(1)) != 0:
                 key = "text:a64:mem-extend-shift0"
             if key in seen:
@@ -1042,7 +1144,15 @@ def replay(data):
     impl, rc, err = vlib.run_lines([str(h)], ops)
     for o, r in zip(ops, impl):
         print(o, "->", r)
-    mon = [o if o.split()[0] in STATE_OPS else monitor_line(o, r) for o, r in zip(ops, impl)]
+    mon = []
+    arch, flags = "x64", 0
+    for o, r in zip(ops, impl):
+        if o.startswith("init "):
+            arch = o.split()[1]
+        if o.startswith("flags "):
+            flags = int(o.split()[1], 16)
+        mon.append(o if o.split()[0] in STATE_OPS else monitor_line(o, r))
+        mon.append(None if o.split()[0] in STATE_OPS else explain_monitor_line(o, r, arch, flags))
     mon = [m for m in mon if m]
     out, _, _ = vlib.run_model("C20", mon)
     for m, r in zip(mon, out):
